@@ -29,6 +29,7 @@ pub fn prop() -> HistProp {
         mk: |_, _, _| Box::new(C04 { nontrivial: false }),
         extra: None,
         many_batches: 0,
+        zero_arrival: 0,
     }
 }
 
